@@ -71,21 +71,44 @@ type captured struct {
 }
 
 type capServer struct {
-	srv *httptest.Server
-	mu  sync.Mutex
-	got []captured
+	srv     *httptest.Server
+	mu      sync.Mutex
+	got     []captured
+	failing bool          // answer 500 and record nothing
+	seen    chan struct{} // signalled (non-blocking) for every request received while failing
 }
 
 func newCapServer() *capServer {
-	c := &capServer{}
+	c := &capServer{seen: make(chan struct{}, 1)}
 	c.srv = httptest.NewServer(http.HandlerFunc(func(w http.ResponseWriter, r *http.Request) {
 		b, _ := io.ReadAll(r.Body)
 		c.mu.Lock()
-		c.got = append(c.got, captured{path: r.URL.Path, encoding: r.Header.Get("Content-Encoding"), ctype: r.Header.Get("Content-Type"), body: b})
+		failing := c.failing
+		if !failing {
+			c.got = append(c.got, captured{path: r.URL.Path, encoding: r.Header.Get("Content-Encoding"), ctype: r.Header.Get("Content-Type"), body: b})
+		}
 		c.mu.Unlock()
+		if failing {
+			select {
+			case c.seen <- struct{}{}:
+			default:
+			}
+			w.WriteHeader(http.StatusInternalServerError)
+			return
+		}
 		w.WriteHeader(http.StatusAccepted)
 	}))
 	return c
+}
+
+func (c *capServer) setFailing(f bool) {
+	c.mu.Lock()
+	c.failing = f
+	c.mu.Unlock()
+	select {
+	case <-c.seen:
+	default:
+	}
 }
 
 func (c *capServer) take() []captured {
@@ -140,24 +163,125 @@ func send(ctx context.Context, b gostatsd.Backend, mm *gostatsd.MetricMap) ([]er
 	}
 }
 
+// decodeBody undoes the content encoding.  It is strict: the body must be exactly ONE compressed
+// stream (one gzip member, one zlib stream) with nothing after it.
 func decodeBody(c captured) ([]byte, error) {
+	src := bytes.NewReader(c.body)
 	switch c.encoding {
 	case "gzip":
-		r, err := gzip.NewReader(bytes.NewReader(c.body))
+		r, err := gzip.NewReader(src)
 		if err != nil {
 			return nil, err
 		}
-		return io.ReadAll(r)
+		r.Multistream(false)
+		out, err := io.ReadAll(r)
+		if err != nil {
+			return nil, err
+		}
+		if src.Len() != 0 {
+			return out, fmt.Errorf("%d bytes after the first gzip member", src.Len())
+		}
+		return out, nil
 	case "deflate":
-		r, err := zlib.NewReader(bytes.NewReader(c.body))
+		r, err := zlib.NewReader(src)
 		if err != nil {
 			return nil, err
 		}
-		return io.ReadAll(r)
+		out, err := io.ReadAll(r)
+		if err != nil {
+			return nil, err
+		}
+		if src.Len() != 0 {
+			return out, fmt.Errorf("%d bytes after the zlib stream", src.Len())
+		}
+		return out, nil
 	case "", "identity":
 		return c.body, nil
 	}
 	return nil, fmt.Errorf("unknown content encoding %q", c.encoding)
+}
+
+// oneJSON decodes exactly one JSON document: anything but white space after it is an error.
+func oneJSON(body []byte, v interface{}) error {
+	dec := json.NewDecoder(bytes.NewReader(body))
+	dec.DisallowUnknownFields()
+	if err := dec.Decode(v); err != nil {
+		return err
+	}
+	var extra json.RawMessage
+	if err := dec.Decode(&extra); err != io.EOF {
+		return fmt.Errorf("data after the JSON document (%d bytes in all)", len(body))
+	}
+	return nil
+}
+
+// ---------------------------------------------------------------------------------------
+// sequences: one client instance, several flushes, some of them made to fail for good
+
+var seq struct {
+	active  bool
+	clients map[string]gostatsd.Backend
+	fail    bool // the flush being run must fail
+	failed  bool // out: it did (a request was refused and the flush context cancelled)
+}
+
+// client returns the backend of this case: a fresh one, or in a sequence the one built first.
+func client(name string, mk func() (gostatsd.Backend, error)) (gostatsd.Backend, error) {
+	if seq.active {
+		if b, ok := seq.clients[name]; ok {
+			return b, nil
+		}
+	}
+	b, err := mk()
+	if err == nil && seq.active {
+		seq.clients[name] = b
+	}
+	return b, err
+}
+
+// maxReq: in a sequence a single request buffer, so that a buffer released by a failed flush is
+// the one the next flush gets.
+func maxReq(n uint) uint {
+	if seq.active {
+		return 1
+	}
+	return n
+}
+
+// flush performs one SendMetricsAsync.  In a failing flush the endpoint answers 500 (with the
+// mock clock the retry timer never fires), and once the first request has been refused the
+// flush context is cancelled: the batch is dropped for good.
+func flush(b gostatsd.Backend, mm *gostatsd.MetricMap) (errs []error, bad string) {
+	ctx, cancel := fixedCtx()
+	defer cancel()
+	seq.failed = false
+	if !seq.fail {
+		return send(ctx, b, mm)
+	}
+	srv, _ := httpEnv()
+	srv.setFailing(true)
+	type res struct {
+		errs []error
+		bad  string
+	}
+	done := make(chan res, 1)
+	go func() { e, m := send(ctx, b, mm); done <- res{e, m} }()
+	var r res
+	select {
+	case <-srv.seen:
+		seq.failed = true
+		time.Sleep(2 * time.Millisecond)
+		cancel()
+		r = <-done
+	case r = <-done: // nothing was sent (empty map)
+	}
+	time.Sleep(5 * time.Millisecond) // let the posting goroutines hand their buffers back
+	srv.setFailing(false)
+	srv.take()
+	if seq.failed && len(r.errs) == 0 && r.bad == "" {
+		r.bad = "a flush whose requests were refused and whose context was cancelled reported no error"
+	}
+	return nil, r.bad
 }
 
 func fv(k string, v float64) KV { return KV{K: k, Kind: 'f', F: math.Float64bits(v)} }
@@ -180,16 +304,19 @@ func runDatadog(in *input, cfg BackendCfg) bres {
 	var r bres
 	srv, p := httpEnv()
 	srv.take()
-	cli, err := datadog.NewClient(srv.srv.URL, "key", "agent", "default", cfg.Batch, 8, cfg.Compress, 5*time.Second, flushInterval, in.subtypes(), quiet, p)
+	cli, err := client("datadog", func() (gostatsd.Backend, error) {
+		return datadog.NewClient(srv.srv.URL, "key", "agent", "default", cfg.Batch, maxReq(8), cfg.Compress, 5*time.Second, flushInterval, in.subtypes(), quiet, p)
+	})
 	if err != nil {
 		r.monitors = append(r.monitors, "datadog.NewClient: "+err.Error())
 		return r
 	}
-	ctx, cancel := fixedCtx()
-	defer cancel()
-	errs, bad := send(ctx, cli, in.buildMap())
+	errs, bad := flush(cli, in.buildMap())
 	if bad != "" {
 		r.monitors = append(r.monitors, "datadog: "+bad)
+	}
+	if seq.fail {
+		return r
 	}
 	for _, e := range errs {
 		r.monitors = append(r.monitors, "datadog: send error: "+e.Error())
@@ -201,13 +328,13 @@ func runDatadog(in *input, cfg BackendCfg) bres {
 		}
 		body, err := decodeBody(c)
 		if err != nil {
-			r.monitors = append(r.monitors, "datadog: body does not decompress: "+err.Error())
-			continue
+			r.monitors = append(r.monitors, "datadog: body is not exactly one well-formed compressed stream: "+err.Error())
+			if body == nil {
+				continue
+			}
 		}
 		var pl ddPayload
-		dec := json.NewDecoder(bytes.NewReader(body))
-		dec.DisallowUnknownFields()
-		if err := dec.Decode(&pl); err != nil {
+		if err := oneJSON(body, &pl); err != nil {
 			r.monitors = append(r.monitors, "datadog: payload is not the documented JSON: "+err.Error())
 			continue
 		}
@@ -261,22 +388,23 @@ func runInflux(in *input, cfg BackendCfg) bres {
 	v.Set("influxdb.org", "o")
 	v.Set("influxdb.compress-payload", cfg.Compress)
 	v.Set("influxdb.metrics-per-batch", cfg.Batch)
-	v.Set("influxdb.max-requests", 64)
+	v.Set("influxdb.max-requests", map[bool]int{false: 64, true: 2}[seq.active])
 	v.Set("flush-interval", flushInterval)
 	m := in.Mask
 	for i, k := range []string{"lower", "upper", "count", "count-per-second", "mean", "median", "stddev", "sum", "sum-squares"} {
 		v.Set("disabled-sub-metrics."+k, m[i])
 	}
-	b, err := influxdb.NewClientFromViper(v, quiet, p)
+	b, err := client("influxdb", func() (gostatsd.Backend, error) { return influxdb.NewClientFromViper(v, quiet, p) })
 	if err != nil {
 		r.monitors = append(r.monitors, "influxdb.NewClientFromViper: "+err.Error())
 		return r
 	}
-	ctx, cancel := fixedCtx()
-	defer cancel()
-	errs, bad := send(ctx, b, in.buildMap())
+	errs, bad := flush(b, in.buildMap())
 	if bad != "" {
 		r.monitors = append(r.monitors, "influxdb: "+bad)
+	}
+	if seq.fail {
+		return r
 	}
 	for _, e := range errs {
 		r.monitors = append(r.monitors, "influxdb: send error: "+e.Error())
@@ -289,8 +417,10 @@ func runInflux(in *input, cfg BackendCfg) bres {
 		}
 		body, err := decodeBody(c)
 		if err != nil {
-			r.monitors = append(r.monitors, "influxdb: body does not decompress: "+err.Error())
-			continue
+			r.monitors = append(r.monitors, "influxdb: body is not exactly one well-formed compressed stream: "+err.Error())
+			if body == nil {
+				continue
+			}
 		}
 		text := string(body)
 		bodies = append(bodies, hlib.Bytes(text))
@@ -367,16 +497,17 @@ func runOTLP(in *input, cfg BackendCfg) bres {
 	for i, k := range []string{"Lower", "Upper", "Count", "CountPerSecond", "Mean", "Median", "StdDev", "Sum", "SumSquares"} {
 		v.Set("otlp.disabled_timer_aggregations."+k, m[i])
 	}
-	b, err := otlp.NewClientFromViper(v, quiet, p)
+	b, err := client("otlp", func() (gostatsd.Backend, error) { return otlp.NewClientFromViper(v, quiet, p) })
 	if err != nil {
 		r.monitors = append(r.monitors, "otlp.NewClientFromViper: "+err.Error())
 		return r
 	}
-	ctx, cancel := fixedCtx()
-	defer cancel()
-	errs, bad := send(ctx, b, in.buildMap())
+	errs, bad := flush(b, in.buildMap())
 	if bad != "" {
 		r.monitors = append(r.monitors, "otlp: "+bad)
+	}
+	if seq.fail {
+		return r
 	}
 	for _, e := range errs {
 		r.monitors = append(r.monitors, "otlp: send error: "+e.Error())
@@ -388,8 +519,10 @@ func runOTLP(in *input, cfg BackendCfg) bres {
 		}
 		body, err := decodeBody(c)
 		if err != nil {
-			r.monitors = append(r.monitors, "otlp: body does not decompress: "+err.Error())
-			continue
+			r.monitors = append(r.monitors, "otlp: body is not exactly one well-formed compressed stream: "+err.Error())
+			if body == nil {
+				continue
+			}
 		}
 		var req v1export.ExportMetricsServiceRequest
 		if err := proto.Unmarshal(body, &req); err != nil {
@@ -536,7 +669,8 @@ func runSender(b gostatsd.Backend, mm *gostatsd.MetricMap) (mon []string) {
 type tcpCapture struct {
 	ln       net.Listener
 	mu       sync.Mutex
-	data     [][]byte
+	data     []byte
+	taken    int
 	wg       sync.WaitGroup
 	accepted chan struct{}
 }
@@ -557,19 +691,50 @@ func newTCPCapture() *tcpCapture {
 			t.accepted <- struct{}{}
 			go func() {
 				defer t.wg.Done()
-				b, _ := io.ReadAll(c)
-				c.Close()
-				t.mu.Lock()
-				t.data = append(t.data, b)
-				t.mu.Unlock()
+				defer c.Close()
+				buf := make([]byte, 1<<16)
+				for {
+					n, err := c.Read(buf)
+					t.mu.Lock()
+					t.data = append(t.data, buf[:n]...)
+					t.mu.Unlock()
+					if err != nil {
+						return
+					}
+				}
 			}()
 		}
 	}()
 	return t
 }
 
+func (t *tcpCapture) size() int {
+	t.mu.Lock()
+	defer t.mu.Unlock()
+	return len(t.data)
+}
+
+// snapshot returns the bytes that arrived since the previous snapshot, once the stream has been
+// quiet for 8 ms (the sender's callback has already run, i.e. its writes have returned).
+func (t *tcpCapture) snapshot() []byte {
+	last, quiet := t.size(), 0
+	for i := 0; i < 400 && quiet < 8; i++ {
+		time.Sleep(time.Millisecond)
+		if n := t.size(); n == last {
+			quiet++
+		} else {
+			last, quiet = n, 0
+		}
+	}
+	t.mu.Lock()
+	defer t.mu.Unlock()
+	out := append([]byte(nil), t.data[t.taken:]...)
+	t.taken = len(t.data)
+	return out
+}
+
 // finish waits for the one connection the sender loop dials per run, reads it to EOF (the
-// sender has been stopped, which closes it) and returns the bytes.
+// sender has been stopped, which closes it) and returns the bytes not yet taken.
 func (t *tcpCapture) finish() []byte {
 	select {
 	case <-t.accepted:
@@ -579,11 +744,9 @@ func (t *tcpCapture) finish() []byte {
 	t.ln.Close()
 	t.mu.Lock()
 	defer t.mu.Unlock()
-	var all []byte
-	for _, d := range t.data {
-		all = append(all, d...)
-	}
-	return all
+	out := append([]byte(nil), t.data[t.taken:]...)
+	t.taken = len(t.data)
+	return out
 }
 
 func splitLines(s string) []string {
@@ -613,6 +776,12 @@ func runGraphite(in *input, cfg BackendCfg) bres {
 	r.monitors = append(r.monitors, runSender(cli, in.buildMap())...)
 	t1 := time.Now().Unix()
 	data := string(tc.finish())
+	decGraphite(in, cfg, data, t0, t1, &r)
+	return r
+}
+
+// decGraphite checks and records the lines one flush put on the TCP stream.
+func decGraphite(in *input, cfg BackendCfg, data string, t0, t1 int64, r *bres) {
 	var items []Item
 	now := int64(0)
 	for i, line := range splitLines(data) {
@@ -643,7 +812,6 @@ func runGraphite(in *input, cfg BackendCfg) bres {
 	// the raw TCP stream goes to the Gallina plaintext reader (strict except for non-finite values)
 	r.coq = hlib.App("BGraphite", hlib.App("MkG", mode, hlib.Bytes(strings.Trim(cfg.Suffix, "."))), hlib.Bool(in.Stream == "nonfinite"), hlib.Z(now), hlib.Bytes(data))
 	r.obs = describe([][]Item{items})
-	return r
 }
 
 func runStdout(in *input, cfg BackendCfg) bres {
@@ -686,12 +854,11 @@ var lineLexer = verifhooks.NewLineLexer(4)
 var typeNames = map[gostatsd.MetricType]string{gostatsd.COUNTER: "Counter", gostatsd.GAUGE: "Gauge", gostatsd.TIMER: "Timer", gostatsd.SET: "MSet"}
 
 // udpCapture reads datagrams (concurrently with the sender, so that the socket buffer never
-// fills) until the sentinel arrives.
+// fills); a sentinel datagram sent by the harness closes a segment.
 type udpCapture struct {
-	conn   *net.UDPConn
-	done   chan struct{}
-	dgrams [][]byte
-	err    error
+	conn *net.UDPConn
+	segs chan [][]byte
+	err  error
 }
 
 const sentinel = "\x00\x00C17-END\x00\x00"
@@ -702,10 +869,11 @@ func newUDPCapture() *udpCapture {
 		panic(err)
 	}
 	_ = conn.SetReadBuffer(8 << 20)
-	u := &udpCapture{conn: conn, done: make(chan struct{})}
+	u := &udpCapture{conn: conn, segs: make(chan [][]byte, 16)}
 	go func() {
-		defer close(u.done)
+		defer close(u.segs)
 		buf := make([]byte, 1<<16)
+		var cur [][]byte
 		for {
 			n, _, err := conn.ReadFromUDP(buf)
 			if err != nil {
@@ -713,27 +881,39 @@ func newUDPCapture() *udpCapture {
 				return
 			}
 			if string(buf[:n]) == sentinel {
-				return
+				u.segs <- cur
+				cur = nil
+				continue
 			}
-			u.dgrams = append(u.dgrams, append([]byte(nil), buf[:n]...))
+			cur = append(cur, append([]byte(nil), buf[:n]...))
 		}
 	}()
 	return u
 }
 
-func (u *udpCapture) finish() (dgrams [][]byte, mon []string) {
+// segment returns the datagrams received since the previous segment (everything the backend
+// wrote before this call has been queued in front of the sentinel).
+func (u *udpCapture) segment() (dgrams [][]byte, mon []string) {
 	s, err := net.DialUDP("udp", nil, u.conn.LocalAddr().(*net.UDPAddr))
 	if err == nil {
 		s.Write([]byte(sentinel))
 		s.Close()
 	}
-	u.conn.SetReadDeadline(time.Now().Add(10 * time.Second))
-	<-u.done
-	u.conn.Close()
-	if u.err != nil {
-		mon = append(mon, "harness: UDP capture ended without sentinel: "+u.err.Error())
+	select {
+	case d, ok := <-u.segs:
+		if !ok {
+			mon = append(mon, fmt.Sprintf("harness: UDP capture ended without sentinel: %v", u.err))
+		}
+		return d, mon
+	case <-time.After(10 * time.Second):
+		return nil, append(mon, "harness: UDP capture: sentinel not received")
 	}
-	return u.dgrams, mon
+}
+
+func (u *udpCapture) finish() (dgrams [][]byte, mon []string) {
+	dgrams, mon = u.segment()
+	u.conn.Close()
+	return dgrams, mon
 }
 
 func coqLexObs(line string) (string, string) {
@@ -800,6 +980,12 @@ func runRelay(in *input, cfg BackendCfg) bres {
 		dgrams, mon = uc.finish()
 		r.monitors = append(r.monitors, mon...)
 	}
+	decRelay(in, cfg, ps, dgrams, &r)
+	return r
+}
+
+// decRelay checks and records the datagrams of one flush.
+func decRelay(in *input, cfg BackendCfg, ps int, dgrams [][]byte, r *bres) {
 	var obs, lexed []string
 	pf := map[string]bool{}
 	var pfl []string
@@ -839,7 +1025,6 @@ func runRelay(in *input, cfg BackendCfg) bres {
 		}
 	}
 	r.obs = sample
-	return r
 }
 
 // relay event
